@@ -86,7 +86,7 @@ def render_conf(rng, default, hosts):
 
 def server_part(ctx):
     rng = ctx.rng
-    n = 1200 if ctx.tier == 'thorough' else 60
+    n = 1200 if ctx.tier == 'thorough' else 60 * ctx.scale
     lines, meta = [], []
     if ctx.replay:
         lines, meta, n = [ctx.replay['case']['line']], [None], 0
@@ -163,7 +163,7 @@ def server_part(ctx):
 
 def run(ctx):
     rng = ctx.rng
-    n = 300000 if ctx.tier == 'thorough' else 6000
+    n = 300000 if ctx.tier == 'thorough' else 6000 * ctx.scale
     lines, meta = [], []
     if ctx.replay:
         lines, meta, n = [ctx.replay['case']['line']], [None], 0
@@ -198,7 +198,7 @@ def run(ctx):
     # WebSocket upgrade requests end to end over loopback: same rule over the WebSocket routes (call_websocket_handler)
     if not ctx.replay:
         wl, wmeta = [], []
-        for _ in range(600 if ctx.tier == 'thorough' else 40):
+        for _ in range(600 if ctx.tier == 'thorough' else 40 * ctx.scale):
             nsub = rng.randint(0, 3)
             # App::with_host refuses the bare `*` host pattern (that is what the default sub-app is for)
             subs = [(rng.choice([h for h in HOST_PATS if h != '*']), [rng.choice(ROUTE_PATS) for _ in range(rng.randint(0, 3))]) for _ in range(nsub)]
